@@ -85,7 +85,54 @@ type c16Case struct {
 	Form string `json:"form"` // spread: Marshal(in...), envelope: Marshal(in)
 }
 
-func c16Run(c *Ctx, cs c16Case, count bool) {
+// swapOperators returns a copy of n in which every operator-position entry (an Operator value, or the
+// third entry of a CONDITION row) is replaced by repl.
+func swapOperators(n jnode, repl jnode) (jnode, bool) {
+	changed := false
+	out := n
+	if n.T == "list" {
+		out.Kids = make([]jnode, len(n.Kids))
+		isRow := len(n.Kids) >= 3 && n.Kids[0].T == "str" && strings.EqualFold(n.Kids[0].S, "CONDITION")
+		for i, k := range n.Kids {
+			if isRow && i == 2 && k.T != repl.T {
+				out.Kids[i] = repl
+				changed = true
+				continue
+			}
+			nk, ch := swapOperators(k, repl)
+			out.Kids[i] = nk
+			changed = changed || ch
+		}
+	}
+	return out, changed
+}
+
+// undecodedEnvelope looks for a raw []any element whose first entry is a recognised stack label.
+func undecodedEnvelope(v any, depth int) string {
+	if depth > 6 {
+		return ""
+	}
+	if s, ok := stackage.ConvertStack(v); ok && s.IsInit() {
+		for _, e := range contents(s) {
+			if sl, isSl := e.([]any); isSl && len(sl) > 0 {
+				if lab, isStr := sl[0].(string); isStr {
+					if _, known := c16Labels[strings.ToUpper(lab)]; known {
+						return fmt.Sprint(sl)
+					}
+				}
+			}
+			if r := undecodedEnvelope(e, depth+1); r != "" {
+				return r
+			}
+		}
+	}
+	if cd, ok := stackage.ConvertCondition(v); ok && cd.IsInit() {
+		return undecodedEnvelope(cd.Expression(), depth+1)
+	}
+	return ""
+}
+
+func c16Run(c *Ctx, cs c16Case, count bool, neighbours ...jnode) {
 	in := cs.In.build().([]any)
 	var recv stackage.Stack
 	switch cs.Recv {
@@ -146,6 +193,30 @@ func c16Run(c *Ctx, cs c16Case, count bool) {
 			c.Violation("panic-after:"+f.n, desc+" succeeded but "+f.n+" then panicked: "+p, cs, size)
 			return
 		}
+	}
+	// comparing with other marshalled stacks (both directions) must return normally as well; besides the
+	// neighbours in the enumeration, the same input with every operator slot filled by a non-operator
+	// (and vice versa) gives a stack of identical shape that differs only there
+	for _, repl := range []jnode{{T: "str", S: "="}, {T: "nil"}, {T: "op"}, {T: "uop-empty"}} {
+		if v, changed := swapOperators(cs.In, repl); changed {
+			neighbours = append(neighbours, v)
+		}
+	}
+	for _, other := range neighbours {
+		var o stackage.Stack
+		if noPanic(func() { o.Marshal(other.build().([]any)...) }) != "" || !o.IsInit() {
+			continue
+		}
+		for dir, pair := range [][2]stackage.Stack{{recv, o}, {o, recv}} {
+			if p := noPanic(func() { pair[0].IsEqual(pair[1]) }); p != "" {
+				c.Violation("panic-after:IsEqual(other)", fmt.Sprintf("%s succeeded; IsEqual (direction %d) against the stack marshalled from %s panicked: %s", desc, dir, other, p), cs, size)
+				return
+			}
+		}
+	}
+	// every nested envelope that starts with a recognised stack label must have been decoded
+	if raw := undecodedEnvelope(recv, 0); raw != "" {
+		c.Violation("nested-envelope-not-decoded", desc+": a nested envelope with a recognised label was left as a raw slice: "+raw, cs, size)
 	}
 	// effective input after stripping single-element envelopes
 	eff := in
@@ -292,6 +363,11 @@ func c16Inputs(c *Ctx) []jnode {
 			out = append(out, l(s("NOT"), n, l(s("AND"), n, l(s("OR"), n))), l(n, n, n, n))
 		}
 	}
+	// a nil (or other non-envelope) entry in front of nested envelopes at the same level
+	for _, lead := range []jnode{{T: "nil"}, {T: "tnil-int"}, s(""), {T: "stack0"}} {
+		out = append(out, l(s("AND"), l(s("LIST"), s("a")), lead, s("v"), l(s("OR"), s("b")), l(s("CONDITION"), s("k"), jnode{T: "op"}, s("v"))),
+			l(s("or"), lead, l(s("NOT"), lead, l(s("and"), s("z")))), l(s("LIST"), lead, lead, l(s("CONDITION"), s("k"), jnode{T: "uop"}, l(s("AND"), lead, l(s("OR"), s("q"))))))
+	}
 	// width up to 4/5 over a small alphabet
 	w := []jnode{s("AND"), s("x"), {T: "nil"}, l(), l(s("CONDITION"), s("k"), s("="), s("v")), {T: "cond0"}}
 	maxW := 4
@@ -327,7 +403,7 @@ func init() {
 			}
 			for _, r := range recvs {
 				for _, f := range forms {
-					c16Run(c, c16Case{inputs[i], r, f}, true)
+					c16Run(c, c16Case{inputs[i], r, f}, true, inputs[(i+1)%len(inputs)], inputs[(i+len(inputs)-1)%len(inputs)], inputs[(i*7+13)%len(inputs)])
 				}
 			}
 		})
